@@ -78,11 +78,25 @@ func init() {
 			}
 			gr := a.Method("aggregator", "GroupAggregator", "GetResults")
 			m := 0
-			allInstrs(gr, func(in ssa.Instruction) {
+			// the row of a group may be assembled by a helper method that is handed the iterated key
+			scanHosts(a, gr, func(in ssa.Instruction) {
 				if lk, ok := in.(*ssa.Lookup); ok {
 					if t := TermOf(lk.X, nil); t.Kind == "field" && t.Field == kv {
 						m++
-						kt := TermOf(lk.Index, nil)
+						idx := lk.Index
+						if prm, isP := idx.(*ssa.Parameter); isP && prm.Parent() != gr {
+							for i, q := range prm.Parent().Params {
+								if q != prm {
+									continue
+								}
+								allInstrs(gr, func(x ssa.Instruction) {
+									if c, ok := x.(*ssa.Call); ok && c.Call.StaticCallee() == prm.Parent() && i < len(c.Call.Args) {
+										idx = c.Call.Args[i]
+									}
+								})
+							}
+						}
+						kt := TermOf(idx, nil)
 						ok2 := kt.Kind == "mapkey" && kt.Base.Kind == "field" && kt.Base.Field == groups
 						a.Check(ok2, fname(gr)+"#keyvals-lookup", in.Pos(), "the reported tuple is groupKeyVals[key] for the key being iterated", "GetResults reads groupKeyVals with "+kt.String()+", not the iterated group key")
 					}
@@ -207,6 +221,11 @@ func (a *A) ruleKeyTuplePositional() int {
 		v := mu.Value
 		if c, isCall := v.(*ssa.Call); isCall && c.Call.StaticCallee() != nil && a.fnInModule(c.Call.StaticCallee()) {
 			a.calleeReturns(c, 0, func(rv ssa.Value, rf *ssa.Function) { sites = append(sites, site{rf, rv}) }, func(string) {})
+		} else if ex, isEx := v.(*ssa.Extract); isEx {
+			// one result of a helper that builds the key text and the tuple together
+			if c, ok := ex.Tuple.(*ssa.Call); ok && c.Call.StaticCallee() != nil && a.fnInModule(c.Call.StaticCallee()) {
+				a.calleeReturns(c, ex.Index, func(rv ssa.Value, rf *ssa.Function) { sites = append(sites, site{rf, rv}) }, func(string) {})
+			}
 		} else {
 			sites = append(sites, site{add, v})
 		}
